@@ -13,7 +13,7 @@ def rules_for(prop):
         g = P(f, **kw)
         return g
     table = {
-        "C01": [ag.rule_ag1, ag.rule_ag2, ag.rule_ag3_small, scan.rule_sc1, tm.rule_tm4],
+        "C01": [ag.rule_ag1, ag.rule_ag2, ag.rule_ag3_small, scan.rule_sc1, tm.rule_tm4, seq.rule_fw2],
         "C02": st.RULES + [ms.rule_ms],
         "C03": mx.RULES,
         "C04": [named(grp.rule_eq1, files=("rxsci/operators/group_by.py", "rxsci/state/memory_store.py", "rxsci/state/store.py",
@@ -57,7 +57,7 @@ EXPLANATION = {
     "C01": _COMMON + "Decided clauses: AG-1 every operator documented as dual-mode has a mux arm or is composed only of dual-mode rxsci "
            "operators (RxPY operators only in plain arms); AG-2 both arms of each of the 13 dispatch sites receive the same user parameters; "
            "AG-3 the operators implemented twice in the repo (scan, flat_map, assert_1, tee_map join) have equal per-item / completion "
-           "skeletons; AG-3b unset markers of siblings. Not decided: that a *_mux body equals the RxPY operator of the plain arm.",
+           "skeletons; AG-3b unset markers of siblings; FW-2 first/take/last emit what their list definition (and RxPY) says. Not decided: that a *_mux body equals the RxPY operator of the plain arm.",
     "C02": _COMMON + "Decided clauses: ST-1 mux handlers write no closure data outside the Probe branch; ST-2 every state id is add_key'd "
            "on every creation path; ST-3 indices used during a lifetime are included in those initialised at creation (affine index sets "
            "key[0], key[0]*D+[0,D)); ST-4 no use after del_key; ST-5 tee_map join table reset covers the slots written; ST-6 injective child "
